@@ -11,6 +11,7 @@ import (
 	"testing"
 
 	sdk "github.com/cosmos/cosmos-sdk/types"
+	"github.com/ethereum/go-ethereum/accounts/abi"
 	"github.com/ethereum/go-ethereum/common"
 
 	"verif/harness/evmasm"
@@ -22,13 +23,16 @@ func TestC05(t *testing.T) {
 	r := report.Start("C05")
 	defer r.Finish()
 	// (a) precompile calls inside failing frames (fault enumeration over placements × methods)
-	placements := []string{"frame-reverts-after-call", "parent-reverts-after-child-returned", "invalid-after-call", "out-of-gas-after-call", "top-level-revert", "precompile-runs-out-of-gas"}
+	placements := []string{"frame-reverts-after-call", "parent-reverts-after-child-returned", "invalid-after-call", "out-of-gas-after-call", "top-level-revert", "precompile-runs-out-of-gas", "precompile-errors-after-partial-writes"}
 	methods := pcMethods()
 	idx := 0
 	reps := r.Pick(2, 40)
 	for rep := 0; rep < reps; rep++ {
 		for _, pl := range placements {
 			for mi := range methods {
+				if pl == "precompile-errors-after-partial-writes" && methods[mi].name != "delegate" {
+					continue // only delegate has an input that fails after its hooks have already paid out rewards
+				}
 				id := fmt.Sprintf("pc/%s/%s/%d", pl, methods[mi].name, rep)
 				idx++
 				if !r.Want(id, idx) {
@@ -162,6 +166,36 @@ func c05Precompile(r *report.R, id, placement string, m pcMethod) {
 			return d, false, 0, 0
 		}
 		return d, ers[0].VmError == "", e.slot(root, 1), ers[0].GasUsed
+	}
+	if placement == "precompile-errors-after-partial-writes" {
+		// delegate more than the balance to a validator the signer already delegates to: the
+		// message server first withdraws the pending rewards (hook), then fails on the transfer
+		root, err := e.deploy([]evmasm.Step{evmasm.Forward{Kind: evmasm.Call, To: m.pc, Fail: evmasm.Ignore, Record: 1}}, 1000)
+		if err != nil || !approveFor(root) {
+			return
+		}
+		dels := n.App.StakingKeeper.GetDelegatorDelegations(n.Ctx(), origin.Addr, 5)
+		if len(dels) == 0 {
+			return
+		}
+		amt := new(big.Int).Add(n.Balance(origin.Addr, vn.Denom).BigInt(), new(big.Int).Mul(big.NewInt(stakeUnit), big.NewInt(100000)))
+		data, _ := e.abiStaking.Pack("delegate", origin.Eth, dels[0].ValidatorAddress, amt)
+		// the grant must cover the amount so that the failure comes from the message server
+		if !e.approve(origin, root, abi.MaxUint256, m.authz) {
+			return
+		}
+		d, txOK, mark, _ := measure(root, data, 2_000_000)
+		if !txOK || mark != 1 {
+			r.Note("delegate over balance did not fail as planned: txOK=%v mark=%d", txOK, mark)
+			return
+		}
+		cls, lines := c05Residue(d, origin.Addr, e.feeColl, []common.Address{root})
+		if len(cls) > 0 {
+			r.Violation(id, fmt.Sprintf("%s|%s|partial-cosmos-writes-survive", m.name, placement), fmt.Sprintf("delegate of more than the balance failed (caught by the caller) but the reward payout made by its hook stayed, stores %s: %v", strings.Join(cls, "+"), trunc(lines, 6)), nil)
+			return
+		}
+		r.Nontriv(m.name + "|" + placement)
+		return
 	}
 	if placement == "precompile-runs-out-of-gas" {
 		// control first on a twin-free basis: find how much gas the call needs, then sweep stipends
